@@ -22,7 +22,7 @@ use cascette_client_storage::lru::LruManager;
 use std::collections::HashMap;
 use std::panic::AssertUnwindSafe;
 use std::path::{Path, PathBuf};
-use std::sync::Arc;
+use std::sync::{Arc, Mutex};
 use std::sync::atomic::{AtomicU64, Ordering};
 use verif_harness::*;
 
@@ -167,8 +167,33 @@ struct Case {
     evicted_since_fill: bool,
 }
 
+/// The session behind a mutex, so that the watchdog thread can — when the real code does not
+/// return from an operation — record the hang as an oracle failure together with the history
+/// that led to it, flush the streams (they are consistent: the hanging request has not been
+/// written yet) and end the process normally.  The main thread holds the lock only inside the
+/// short calls below, never while the real code runs.
+#[derive(Clone)]
+struct Shared(Arc<Mutex<Option<Session>>>);
+
+impl Shared {
+    fn with<R>(&self, f: impl FnOnce(&mut Session) -> R) -> R {
+        let mut g = self.0.lock().unwrap_or_else(|e| e.into_inner());
+        f(g.as_mut().expect("session already finished"))
+    }
+    fn line(&self, req: &str, resp: &str) { self.with(|s| s.line(req, resp)) }
+    fn case(&self, k: Option<&str>) { self.with(|s| s.case(k)) }
+    fn tally(&self, k: &str) { self.with(|s| s.tally(k)) }
+    fn oracle_fail(&self, sig: &str, msg: &str, replay: &[String]) { self.with(|s| s.oracle_fail(sig, msg, replay)) }
+    fn finish(&self) {
+        let taken = self.0.lock().unwrap_or_else(|e| e.into_inner()).take();
+        if let Some(s) = taken { s.finish() }
+    }
+}
+
 struct Ctx {
-    s: Session,
+    s: Shared,
+    /// request lines of the history being run (for the watchdog)
+    cur: Arc<Mutex<Vec<String>>>,
     rt: tokio::runtime::Runtime,
     base: PathBuf,
     ncase: u64,
@@ -301,6 +326,7 @@ impl Case {
         let dir = cx.base.join(format!("c{}", cx.ncase));
         let req = format!("begin cap={} keys={}", cap, keys.iter().map(|k| hex(k)).collect::<Vec<_>>().join(","));
         cx.s.line(&req, "ok");
+        *cx.cur.lock().unwrap() = vec![req.clone()];
         let zero_idx = keys.iter().position(|k| *k == ZERO);
         Case {
             cap,
@@ -347,6 +373,7 @@ impl Case {
         cx.beat.fetch_add(1, Ordering::Relaxed);
         let req = op.text();
         self.log.push(req.clone());
+        cx.cur.lock().unwrap().push(req.clone());
         cx.s.tally(&format!("op.{}", req.split(' ').next().unwrap_or("")));
         let cap = self.cap;
         let before_len = self.reference.order.len();
@@ -771,9 +798,14 @@ fn main() {
     quiet_panics();
     let tmp = tempfile::tempdir().expect("tempdir");
     let beat = Arc::new(AtomicU64::new(0));
+    let shared = Shared(Arc::new(Mutex::new(Some(Session::new(&args.out)))));
+    let cur: Arc<Mutex<Vec<String>>> = Arc::new(Mutex::new(vec![]));
     {
-        // watchdog: a hang of the real code (a cycle in the intrusive list) must not hang the check
+        // watchdog: a hang of the real code (a cycle in the intrusive list) must not hang the
+        // check, and must come out as an oracle failure with the history that produced it
         let beat = beat.clone();
+        let shared = shared.clone();
+        let cur = cur.clone();
         std::thread::spawn(move || {
             let mut last = u64::MAX;
             loop {
@@ -781,21 +813,28 @@ fn main() {
                 let now = beat.load(Ordering::Relaxed);
                 if now == last {
                     eprintln!("c17: no progress for 60 s — the real code hangs (cycle in the list?)");
-                    std::process::exit(3);
+                    let log = cur.lock().unwrap_or_else(|e| e.into_inner()).clone();
+                    let last_req = log.last().cloned().unwrap_or_default();
+                    shared.oracle_fail("lru-hang", &format!("the real code does not return from `{last_req}` within 60 s (an operation of the LRU manager must terminate; a cycle in the intrusive list?)"), &log);
+                    shared.tally("oracle.lru-hang");
+                    shared.finish();
+                    std::process::exit(0);
                 }
                 last = now;
             }
         });
     }
     let mut cx = Ctx {
-        s: Session::new(&args.out),
+        s: shared,
+        cur,
         rt: tokio::runtime::Builder::new_current_thread().enable_all().build().expect("tokio runtime"),
         base: tmp.path().to_path_buf(),
         ncase: 0,
         beat,
         sig_count: HashMap::new(),
     };
-    cx.s.rule = "op histories over touch/remove/evict_tail/evict_to_target/bump_generation/checkpoint_to_disk/load_from_disk/run_cycle/reset/reopen on the real LruManager (real files in a temp dir): (A) every in-memory history up to a length bound over capacities 1-3 and the keys {all-zero, a, b, c} (non-zero keys in canonical first-use order), (B) every persistence history up to a shorter bound over capacities 1-3 and keys {all-zero, a, b}, (C) seeded random long histories for capacities 0..64 with directed fill / public-evict / refill phases; in (B) after every checkpoint and in (C) after 2/3 of them and at random points a `filecheck` reads the .lru file of the current generation back as a doubly linked list (own parser) and holds it against the representation invariant and the textbook order; evaluation = one history; non-trivial = history reaches touch-evicts-at-capacity, an evict_to_target that evicts, or a successful reload; distinct = canonical request text of the history".into();
+    let rule: String = "op histories over touch/remove/evict_tail/evict_to_target/bump_generation/checkpoint_to_disk/load_from_disk/run_cycle/reset/reopen on the real LruManager (real files in a temp dir): (A) every in-memory history up to a length bound over capacities 1-3 and the keys {all-zero, a, b, c} (non-zero keys in canonical first-use order), (B) every persistence history up to a shorter bound over capacities 1-3 and keys {all-zero, a, b}, (C) seeded random long histories for capacities 0..64 with directed fill / public-evict / refill phases; in (B) after every checkpoint and in (C) after 2/3 of them and at random points a `filecheck` reads the .lru file of the current generation back as a doubly linked list (own parser) and holds it against the representation invariant and the textbook order; evaluation = one history; non-trivial = history reaches touch-evicts-at-capacity, an evict_to_target that evicts, or a successful reload; distinct = canonical request text of the history".into();
+    cx.s.with(|s| s.rule = rule);
     let mut rng = Rng::new(args.seed);
 
     if let Some(p) = &args.replay {
@@ -829,7 +868,7 @@ fn main() {
         exhaustive(&mut cx, 1, &keys3, &alpha_a3, la + 1, 1);
         exhaustive(&mut cx, 3, &keys4, &alpha_a3, la + 1, 1);
     }
-    cx.s.extra.insert("exhaustive_in_memory_len".into(), serde_json::json!({"caps 1-3, 4 keys, 12 ops": la, "3 keys, 9 ops (quick: cap 2; thorough: caps 1-3)": la + 1}));
+    cx.s.with(|s| { s.extra.insert("exhaustive_in_memory_len".into(), serde_json::json!({"caps 1-3, 4 keys, 12 ops": la, "3 keys, 9 ops (quick: cap 2; thorough: caps 1-3)": la + 1})); });
     // (B) exhaustive persistence histories
     let alpha_b: Vec<Op> = vec![
         Op::Touch(0), Op::Touch(1), Op::Touch(2), Op::Remove(1), Op::EvictTail, Op::EvictTo(1, 1), Op::Bump, Op::Checkpoint,
@@ -842,7 +881,7 @@ fn main() {
         }
     }
     exhaustive(&mut cx, 2, &keys3, &alpha_b, lb + 1, 1);
-    cx.s.extra.insert("exhaustive_persistence_len".into(), serde_json::json!({"caps 1-3, 3 keys, 14 ops": lb, "cap 2": lb + 1}));
+    cx.s.with(|s| { s.extra.insert("exhaustive_persistence_len".into(), serde_json::json!({"caps 1-3, 3 keys, 14 ops": lb, "cap 2": lb + 1})); });
     // (C) random long histories
     let n_random = if thorough { 6000 } else { 600 };
     let caps: [u32; 16] = [0, 1, 2, 3, 4, 4, 5, 7, 8, 15, 16, 17, 31, 32, 33, 64];
@@ -854,9 +893,11 @@ fn main() {
     finish(cx);
 }
 
-fn finish(mut cx: Ctx) {
+fn finish(cx: Ctx) {
     let counts: serde_json::Map<String, serde_json::Value> = cx.sig_count.iter().map(|(k, v)| (k.clone(), serde_json::json!(v))).collect();
-    cx.s.extra.insert("oracle_failures_by_sig_uncapped".into(), serde_json::Value::Object(counts));
-    cx.s.extra.insert("oracle_lines_cap_per_sig".into(), serde_json::json!(MAX_ORACLE_LINES_PER_SIG));
+    cx.s.with(|s| {
+        s.extra.insert("oracle_failures_by_sig_uncapped".into(), serde_json::Value::Object(counts));
+        s.extra.insert("oracle_lines_cap_per_sig".into(), serde_json::json!(MAX_ORACLE_LINES_PER_SIG));
+    });
     cx.s.finish();
 }
